@@ -5,6 +5,7 @@ func init() {
 	vHarnesses["H_C10_update_deep"] = H_C10_update_deep
 	vHarnesses["H_C10_malformed"] = H_C10_malformed
 	vHarnesses["H_C10_update_lists"] = H_C10_update_lists
+	vHarnesses["H_C10_subkeys2"] = H_C10_subkeys2
 }
 
 type vAddr struct {
@@ -210,4 +211,53 @@ func H_C10_malformed() {
 	vAssert(cnt == 0, "update: malformed new value changes nothing (count)")
 	vAssertUnchangedSince(mark, "update: malformed new value leaves the Map untouched")
 	vCover("malformed")
+}
+
+// two sub-key conditions, one typed and one plain, in both argument orders: each condition
+// is compared in its own type
+func H_C10_subkeys2() {
+	qv := []interface{}{2.0, "2", true}
+	cv := []interface{}{"7", 7.0, "x"}
+	n := 1 + vChoose(2)
+	var l []interface{}
+	for i := 0; i < n; i++ {
+		l = append(l, map[string]interface{}{"q": qv[vChoose(3)], "c": cv[vChoose(3)], "k": "o"})
+	}
+	m := Map{"l": l}
+	ti := vChoose(3)
+	typed := []string{"q:2:num", "q:true:bool", "q:2:string"}[ti]
+	pi := vChoose(2)
+	plain := []string{"c:7", "c:x"}[pi]
+	subs := []string{typed, plain}
+	if vChoose(2) == 1 {
+		subs = []string{plain, typed}
+	}
+	cnt, err := m.UpdateValuesForPath(map[string]interface{}{"k": "N"}, "l.k", subs...)
+	vAssert(err == nil, "subkeys2: well-formed sub-keys are accepted")
+	want := 0
+	for _, mem := range l {
+		mm := mem.(map[string]interface{})
+		okq := false
+		switch ti {
+		case 0:
+			f, isF := mm["q"].(float64)
+			okq = isF && f == 2
+		case 1:
+			b, isB := mm["q"].(bool)
+			okq = isB && b
+		default:
+			s, isS := mm["q"].(string)
+			okq = isS && s == "2"
+		}
+		s, isS := mm["c"].(string)
+		okc := isS && s == []string{"7", "x"}[pi]
+		if okq && okc {
+			want++
+			vAssert(mm["k"] == "N", "subkeys2: a member that satisfies both conditions is updated")
+		} else {
+			vAssert(mm["k"] == "o", "subkeys2: a member that fails a condition is left alone")
+		}
+	}
+	vAssert(cnt == want, "subkeys2: the count equals the number of values replaced")
+	vCover("subkeys2")
 }
